@@ -5,6 +5,7 @@ package main
 
 import (
 	"fmt"
+	"os"
 	"strconv"
 	"strings"
 
@@ -168,6 +169,9 @@ func mapRunSrc(keys []string, ops []string) string {
 
 func mapRun(input string) string {
 	parts := strings.Split(input, "|")
+	if parts[0] == "K" { // the constant the model is instantiated with
+		return strconv.Itoa(object.MaxSmallMap)
+	}
 	var keys, ops []string
 	if parts[1] != "" {
 		keys = strings.Split(parts[1], ";")
@@ -312,6 +316,8 @@ func mapGen(tier string, r *rng, emit func(string)) {
 			push(h)
 		}
 	}
+	fmt.Fprintf(os.Stderr, "mapops: BFS explored %d states (limit %d)\n", len(queue), maxStates)
+	emit("K||")
 	// long random histories over a 20-key universe; every prefix is a case
 	k20 := []string{wi(0), wi(1), wi(2), wi(3), wi(-1), wf(0.5), wf(1), wf(2), wf(2.5), wf(-1.5), ws("a"), ws("b"), ws("ab"), ws(""), "t", "f", "n", warr(), warr(wi(1)), warr(wi(1), wi(2))}
 	v20 := []string{wi(7), ws("v"), "n", warr(wi(1)), wf(0.5)}
